@@ -109,7 +109,7 @@ def describe(tier):
             'e2e_rules': E2E_RULES}
 
 
-RMAX = {'quick': {1: 4, 2: 3, 3: 2}, 'thorough': {1: 5, 2: 5, 3: 4}}
+RMAX = {'quick': {1: 4, 2: 3, 3: 2}, 'thorough': {1: 5, 2: 4, 3: 4}}
 E2E_RULES = ['trypsin', 'trypsin/P', 'lys-c', 'lys-n', 'asp-n', 'glu-c', 'arg-c', 'proalanase', '([KR])',
              'non-specific', 'no-cleave']
 
